@@ -14,6 +14,7 @@ import (
 	"github.com/esimov/gogu/vrtshim/vrt"
 	sync "github.com/esimov/gogu/vrtshim/vsync"
 	"verif/core"
+	"verif/seqmc"
 )
 
 // C20 — Delay, debounce, throttle on the virtual clock. wait = 5 units; the
@@ -24,7 +25,7 @@ const waitW = 5 * unit
 
 func init() {
 	registry["C20"] = func(rep *core.Report) {
-		shards := []string{"delay", "debounce1", "debounce2", "throttle-script:false", "throttle-script:true", "throttle-conc:false", "throttle-conc:true"}
+		shards := []string{"delay", "debounce1", "debounce2", "throttle-script:false", "throttle-script:true", "throttle-conc:false", "throttle-conc:true", "throttle-graph:false", "throttle-graph:true"}
 		rep.Set("engine", "vrt+explore with virtual time: timers fire only when the explorer moves the clock (Advance is a scheduled operation; discrete-event jump when nothing is enabled), so every placement of calls relative to deadlines is an interleaving and all assertions are exact integer inequalities")
 		if !runWorkers(rep, "C20worker", shards, nil) {
 			fmt.Fprintln(os.Stderr, "C20: worker failure")
@@ -157,6 +158,8 @@ func c20worker(arg string) {
 		c20throttleScript(c, strings.HasSuffix(arg, "true"))
 	case strings.HasPrefix(arg, "throttle-conc:"):
 		c20throttleConc(c, strings.HasSuffix(arg, "true"))
+	case strings.HasPrefix(arg, "throttle-graph:"):
+		c20throttleGraph(c, strings.HasSuffix(arg, "true"))
 	}
 	c.st.States = len(c.states)
 	c.out.stats(*c.st)
@@ -601,4 +604,148 @@ func c20throttleConc(c *c20ctx, trailing bool) {
 			return strings.Join(s, " ")
 		})
 	}
+}
+
+// ---------------------------------------------------------------- throttle: the reachable state graph
+
+// c20throttleGraph explores the throttle as a protocol instead of through bounded scripts: a driver
+// thread picks its next operation (Call, Advance 2, Cancel) by an explorer choice in an endless loop, a
+// consumer calls Next in an endless loop, and the explorer keeps a set of visited global states (the
+// throttler's private fields with times relative to now, pending timers, every thread's continuation,
+// the monitor) and cuts an execution when it reaches a visited one. The search ends when no new state
+// is reachable: arrangements of ANY length are covered, for both trailing modes.
+func c20throttleGraph(c *c20ctx, trailing bool) {
+	name := fmt.Sprintf("throttle state graph (trailing=%t): driver{Call | Advance 2 | Cancel}* with a consumer calling Next", trailing)
+	c.st.Scenarios++
+	type monitor struct {
+		lastPerm   int64 // time of the last permission (-1000: none)
+		obligation bool  // a trigger has been sent and no permission was handed out since
+		cancelled  bool
+		viol, det  string
+		trace      []string
+	}
+	var m *monitor
+	var lastChoices []int
+	reported := map[string]bool{}
+	e := &vrt.Explorer{Horizon: 4000, Quick: !thorough, Budget: c.budget * 20, Deadline: c.deadline, Stateful: true}
+	stop := false
+	e.StopEarly = func() bool { return stop }
+	body := func() {
+		m = &monitor{lastPerm: -1000}
+		mm := m
+		th := gogu.NewThrottle(waitW, trailing)
+		rel := func(t int64) int64 { // time since t, capped just above the period
+			d := now() - t
+			if d > 6 {
+				d = 6
+			}
+			return d
+		}
+		vrt.SetKeyFn(func() string {
+			last := seqmc.Get(th, "last").Interface().(time.Time)
+			lr := int64(6)
+			if !last.IsZero() {
+				lr = rel(last.Sub(vrt.Epoch).Nanoseconds() / int64(unit))
+			}
+			flags := ""
+			for _, f := range []string{"waiting", "pending", "stop", "trail", "trailing"} { // (fields a change may add show up through the generic dump below)
+				if v := seqmc.Get(th, f); v.IsValid() && v.Kind() == reflect.Bool {
+					flags += fmt.Sprintf("%s=%t ", f, v.Bool())
+				}
+			}
+			return fmt.Sprintf("%slast-%d|perm-%d ob=%t c=%t", flags, lr, rel(mm.lastPerm), mm.obligation, mm.cancelled)
+		})
+		consumer := vrt.ThreadCount()
+		var done sync.WaitGroup
+		done.Add(1)
+		vrt.GoNamed("consumer", false, func() {
+			defer done.Done()
+			for {
+				ok := th.Next()
+				t := now()
+				if !ok {
+					return
+				}
+				switch {
+				case mm.cancelled:
+					mm.viol, mm.det = "Throttle/graph/Next-true-after-Cancel", fmt.Sprintf("Next returned true at time %d although Cancel had returned", t)
+				case t-mm.lastPerm < 5:
+					mm.viol, mm.det = "Throttle/graph/two-permissions-within-one-period", fmt.Sprintf("permissions at %d and %d with a period of 5", mm.lastPerm, t)
+				}
+				mm.lastPerm, mm.obligation = t, false
+				mm.trace = append(mm.trace, fmt.Sprintf("Next=true@%d", t))
+			}
+		})
+		for mm.viol == "" {
+			// quiescent and a kept trigger can never turn into a permission?
+			if trailing && mm.obligation && vrt.PendingTimers() == 0 && vrt.LiveThreads() == 2 && vrt.ThreadParked(consumer) {
+				mm.viol, mm.det = "Throttle/graph/trailing-trigger-lost", fmt.Sprintf("at time %d a trigger is outstanding (last permission at %d), no timer is armed and the consumer is parked in Next: the trigger can never become a permission", now(), mm.lastPerm)
+				break
+			}
+			switch vrt.Choose(3) {
+			case 0:
+				mm.trace = append(mm.trace, fmt.Sprintf("Call@%d", now()))
+				if trailing {
+					// set at the invocation: a permission that is handed out while the Call is still
+					// running (its own broadcast) already answers it
+					mm.obligation = true
+				}
+				th.Call()
+			case 1:
+				vrt.Advance(2 * unit)
+			case 2:
+				th.Cancel()
+				mm.cancelled = true
+				done.Wait() // every pending and future Next returns false promptly: the consumer ends without any clock movement
+				return
+			}
+		}
+		if mm.viol != "" { // let the execution end: cancel so that the consumer leaves
+			th.Cancel()
+			mm.cancelled = true
+		}
+	}
+	e.Check = func(x *vrt.Exec) {
+		key, detail := "", ""
+		for i := 0; i < x.NumThreads(); i++ {
+			if pm := x.ThreadAt(i).Panic; pm != "" {
+				key, detail = "Throttle/graph/panic", pm
+			}
+		}
+		if key == "" && m != nil && m.viol != "" {
+			key, detail = m.viol, m.det
+		}
+		if key == "" && x.Deadlock {
+			key, detail = "Throttle/graph/deadlock", "no thread enabled: "+x.DeadlockInfo
+		}
+		if key == "" && x.HorizonHit {
+			key, detail = "Throttle/graph/horizon", "an execution ran 4000 steps without reaching a visited state: the state rendering is not finite"
+		}
+		if key != "" && !reported[key] {
+			reported[key] = true
+			stop = true
+			lastChoices = append([]int{}, e.LastChoices...)
+			c.out.finding(wFinding{key + fmt.Sprintf("/trailing=%t", trailing), detail, map[string]any{"scenario": name, "trace": m.trace, "schedule_thread_ids": append([]int16{}, x.Schedule()...), "choices": lastChoices},
+				map[string]any{"engine": "conc", "check": "C20", "sub": "C20worker", "shard": c.st.Shard, "scenario": name, "choices": lastChoices}})
+		}
+	}
+	if r := replayReq; r != nil {
+		if r.Scenario != name {
+			return
+		}
+		r.Seen = true
+		x := vrt.Run(r.Choices, 4000, !thorough, body)
+		e.LastChoices = r.Choices
+		e.Check(x)
+		return
+	}
+	e.Explore(body)
+	c.st.Execs += e.Execs
+	c.st.Steps += e.Steps
+	c.st.Extra["throttle_graph_states"] += e.States
+	c.st.Extra["throttle_graph_cut_executions"] += e.Cuts
+	if !e.Complete && !stop {
+		c.st.Incomplete++
+	}
+	c.st.Samples = append(c.st.Samples, fmt.Sprintf("%s: %d global states, %d executions (%d cut at a visited state), fixpoint=%t", name, e.States, e.Execs, e.Cuts, e.Complete))
 }
